@@ -129,6 +129,8 @@ impl GSim {
                     6 => free % t.saturating_mul(2).max(2),
                     _ => free % 1_000_000_007,
                 };
+                // (keep the clock far from u64 saturation, see ops::concretize)
+                let d = if self.now.saturating_add(d) > (1u64 << 62) { d % 1_000_000_007 } else { d };
                 self.now = self.now.saturating_add(d);
                 Some((Op::Advance(d), Expected::Nothing))
             }
@@ -723,6 +725,10 @@ pub fn check_encode_feed_poll(timeout: u64, prior: &[Op], r: &PnReport, lsb_firs
     }
     // the encoding: for carrier 0 what the crate's own encoder produces into RawShortMessage,
     // otherwise the sequence the property describes (fed through the other implementations)
+    if now > (1u64 << 63) {
+        // a clock this close to saturation cannot "let the timeout pass" any more: not a valid case
+        return Ok(false);
+    }
     let enc: Vec<(u8, u8, u8)> = if carrier == 0 {
         use helgoboss_midi::{DataEntryByteOrder, RawShortMessage, ShortMessage};
         let msg = build_pn(r);
